@@ -19,8 +19,9 @@ MANIFEST = dict(
          "panicking execution ends exactly like a returning one for the loop goroutine, worker i and a job goroutine (worker back in its "
          "select, wg decremented, queue untouched). The loop bounds `i := 1; i <= MaxRetries`, the deferred recover, the timer/ctx.Done select "
          "and the break-on-success are regenerated from scheduler.go on every run. Scripted jobs (fail k times then succeed, always fail, panic "
-         "on attempt j) x MaxRetries {-1,0,1,2,3,7} x intervals {0,1,20 ms} x three modes x cancellation before / during the wait / during an "
-         "attempt run on the real scheduler in child processes (an unrecovered panic is itself detected), plus direct calls through "
+         "on attempt j) x MaxRetries {-1,0,1,2,3,7, math.MaxInt, MaxInt-1, math.MinInt, MinInt+1} x intervals {0,1,20 ms} x three modes x cancellation before / during the wait / during an "
+         "attempt run on the real scheduler in child processes (an unrecovered panic is itself detected), jobs whose Description() panics as well (explicitly or by a nil dereference shared with Execute) "
+         "while Execute panics, fails until the retries are used up or succeeds, plus direct calls through "
          "VerifExecuteWithRetries; attempt counts are compared with the Coq model and spacing, sibling progress, the job's next fire time "
          "and Wait are checked. Real-time spacing is observed, not proved.",
     design_ref="6 C13")
@@ -42,6 +43,10 @@ def oracle(o):
     n = len(o["attempts"])
     why = []
     if o["crashed"]:
+        if sp.get("desc"):
+            return ["the scheduler process died while it was running a job whose Description() panics (%s) and whose Execute follows the script %s: "
+                    "user code called by the scheduler on behalf of a job was not contained: %s"
+                    % (sp["desc"], "always fail" if fails_before(sc) == len(sc) else sc, o.get("detail", "")[:400] or "no output")]
         return ["a panic inside the job was not contained: %s" % (o.get("detail", "")[:300] or "the scheduler process died")]
     full = 1 + (budget if sp.get("forever") else min(budget, fails_before(sc)))
     if o["cancel"] == "none":
@@ -96,8 +101,10 @@ Definition outs (l : list outc) (k : nat) : outc := nth k l AOk.
 Definition ws (cancel_at : option nat) (k : nat) : wsel :=
   match cancel_at with Some n => if Nat.eqb k n then WDone 0 else WTimer 0 | None => WTimer 0 end.
 Definition kind (f : rfinal) : nat := match f with RReturned false => 0 | RReturned true => 1 | RRecovered => 2 | RCrashed => 3 | RFuelOut => 4 end%%nat.
+(* evaluated with a recursion fuel of the script's length: by C13_fuel_irrelevant this IS execute_with_retries unless
+   the result is RFuelOut (kind 4, reported as a mismatch); retry_fuel itself is a unary number of the size of MaxRetries *)
 Definition model (l : list outc) (maxr ri : Z) (c : option nat) : nat * nat :=
-  let r := execute_with_retries (outs l) (fun _ => 0) (ws c) maxr ri 0 in (r_att (fst r), kind (snd r)).
+  let r := execute_with_retries_fuel (outs l) (fun _ => 0) (ws c) maxr ri (length l + 3) 0 in (r_att (fst r), kind (snd r)).
 Definition cases : list (nat * (list outc * Z * Z * option nat * nat * bool)) := [
 %s
 ].
@@ -166,10 +173,13 @@ def run(ctx):
     binp = lc.looph()
     rows = run_direct(binp, ctx.seed) + run_retry(binp, ctx.seed, ctx.tier)
     failures, mismatches = [], []
-    for o in rows:
+    suspects = [o for o in rows if oracle(o)]
+    tried = 0
+    for o in suspects:
         why = oracle(o)
-        if not why:
-            continue
+        if len(failures) >= 4 or tried >= 8:
+            break   # enough evidence: every further confirmation costs a child process run
+        tried += 1
         confirmed = o["via"] == "direct"
         if not confirmed:
             again = run_retry(binp, ctx.seed + 1, "thorough", only=o["spec"]["name"])
@@ -177,7 +187,7 @@ def run(ctx):
             confirmed = any(oracle(x) for x in again) or not again
         if confirmed:
             failures.append({"case": {"via": o["via"], "mode": o["mode"], "cancel": o["cancel"], "spec": o["spec"]}, "why": why,
-                             "attempts_us": o["attempts"], "how": "looph retry/direct: a scripted job whose k-th attempt has the listed outcome"})
+                             "failing_cases_in_this_run": len(suspects), "attempts_us": o["attempts"], "how": "looph retry/direct: a scripted job whose k-th attempt has the listed outcome"})
     if lc.model_available():
         bad, out = model_mismatches(rows)
         if bad is None:
@@ -199,8 +209,8 @@ def run(ctx):
         "evaluations": len(rows), "attempts_observed": sum(len(o["attempts"]) for o in rows),
         "distinct_nontrivial": len({json.dumps([o["via"], o["mode"], o["cancel"], o["spec"]["script"], o["spec"]["maxr"], o["spec"]["interval_ms"]])
                                     for o in rows if len(o["attempts"]) >= 2}),
-        "rule": "scripts {fail^k ok (k=0,1,2,3,5,8), always fail, failures that are or wrap context.DeadlineExceeded / context.Canceled, fail^j panic (j=0,1,2,4)} x MaxRetries {-1,0,1,2,3,7} x interval {0,1,20 ms} x "
-                "{unbounded, pool, blocking} in child processes + cancellation before/during wait/during attempt + direct calls; "
+        "rule": "scripts {fail^k ok (k=0,1,2,3,5,8), always fail, failures that are or wrap context.DeadlineExceeded / context.Canceled, fail^j panic (j=0,1,2,4)} x MaxRetries {-1,0,1,2,3,7} and {MaxInt, MaxInt-1, MinInt, MinInt+1} x interval {0,1,20 ms} x "
+                "{unbounded, pool, blocking} in child processes + jobs whose Description() panics / dereferences nil (Execute panics, exhausts its retries, succeeds) + cancellation before/during wait/during attempt + direct calls; "
                 "non-trivial = at least one retry happened",
         "samples": [{"spec": o["spec"], "mode": o["mode"], "attempts": len(o["attempts"])} for o in rows[5:8]],
         "exhaustive": False, "model_mismatches": len(mismatches), "oracle_failures": len(failures),
